@@ -645,17 +645,27 @@ fn sorted_by<K: std::hash::Hash + Eq, V>(map: IndexMap<K, V>, cmp: impl Fn(&(K, 
 	v.into_iter().collect()
 }
 
-/// every level ordered by the `Ord` of its mapping info (what `write` sorts by)
+/// harness-own sort keys of the mapping infos: a name / descriptor is its sequence of code points, an absent name sorts before
+/// every present one, tuples and sequences compare lexicographically. The EXPECTED order is computed from these (the order the
+/// property states: classes by their names, fields and methods by descriptor then names, parameters by index then names) and never
+/// through the `Ord` of quill's types, so that a changed `Ord` / sort key in quill cannot move the expectation along with the result
+fn cps(s: &JavaStr) -> Vec<u32> { s.chars().map(|c| c.as_u32()).collect() }
+fn names_key<const N: usize, T: AsRef<JavaStr>>(names: &Names<N, T>) -> Vec<Option<Vec<u32>>> {
+	let arr: &[Option<T>; N] = names.into();
+	arr.iter().map(|o| o.as_ref().map(|t| cps(t.as_ref()))).collect()
+}
+
+/// every level in the order `write` must produce (see `names_key`)
 fn canon<const N: usize>(m: &M<N>) -> M<N> {
 	let mut m = m.clone();
 	for c in m.classes.values_mut() {
 		for me in c.methods.values_mut() {
-			me.parameters = sorted_by(std::mem::take(&mut me.parameters), |a, b| a.1.info.cmp(&b.1.info));
+			me.parameters = sorted_by(std::mem::take(&mut me.parameters), |a, b| (a.1.info.index, names_key(&a.1.info.names)).cmp(&(b.1.info.index, names_key(&b.1.info.names))));
 		}
-		c.methods = sorted_by(std::mem::take(&mut c.methods), |a, b| a.1.info.cmp(&b.1.info));
-		c.fields = sorted_by(std::mem::take(&mut c.fields), |a, b| a.1.info.cmp(&b.1.info));
+		c.methods = sorted_by(std::mem::take(&mut c.methods), |a, b| (cps(a.1.info.desc.as_inner()), names_key(&a.1.info.names)).cmp(&(cps(b.1.info.desc.as_inner()), names_key(&b.1.info.names))));
+		c.fields = sorted_by(std::mem::take(&mut c.fields), |a, b| (cps(a.1.info.desc.as_inner()), names_key(&a.1.info.names)).cmp(&(cps(b.1.info.desc.as_inner()), names_key(&b.1.info.names))));
 	}
-	m.classes = sorted_by(std::mem::take(&mut m.classes), |a, b| a.1.info.cmp(&b.1.info));
+	m.classes = sorted_by(std::mem::take(&mut m.classes), |a, b| names_key(&a.1.info.names).cmp(&names_key(&b.1.info.names)));
 	m
 }
 
